@@ -70,7 +70,10 @@ class Associate(Block):
             # now pass the keywords through the dimension_parser and set the keywords
             # in the associate object. Hover should now pick the local keywords
             # over the linked_object keywords
-            assoc.link_name = re.sub(r"\(.*\)", "", assoc.link_name)
+            # Each part of the selector loses its own subscripts: `a(i)%b(j(k))`
+            # is bound to `a%b` (innermost parentheses are removed first)
+            while re.search(r"\([^()]*\)", assoc.link_name):
+                assoc.link_name = re.sub(r"\([^()]*\)", "", assoc.link_name)
             var_stack = get_var_stack(assoc.link_name)
             is_member = len(var_stack) > 1
             if is_member:
